@@ -83,4 +83,26 @@ theorem sum_ones {α : Type} (l : List α) (p : α → Bool) :
     | succ n ih => intro k; simp [List.replicate_succ, ih]; omega
   simp [builtin, h l 0, hs]
 
+/-- `sum(1 for _ in l)` -/
+theorem sum_all {α : Type} (l : List α) :
+    builtin .sum [.list (l.map fun _ => Val.int 1)] = .ok (.int l.length) := by
+  have h := sum_ones l (fun _ => true)
+  have hf : l.filter (fun _ => true) = l := by induction l with
+    | nil => rfl
+    | cons a r ih => simp
+  rw [hf] at h
+  simpa using h
+
+/-- `sum_ones` for a decidable proposition (the form `simp` normalises `if (x == y) = true` to) -/
+theorem sum_ones_prop {α : Type} (l : List α) (p : α → Prop) [DecidablePred p] :
+    builtin .sum [.list (l.filterMap fun a => if p a then some (Val.int 1) else none)] =
+      .ok (.int (l.filter fun a => decide (p a)).length) := by
+  have h := sum_ones l (fun a => decide (p a))
+  simpa using h
+
+/-- the test of `t.status == TestStatus.<which>` on a presented test -/
+theorem status_eq (t : Test) (which : String) :
+    Val.eqv (tsV t.status) (.enum "TestStatus" which) = some (t.status.name == which) := by
+  simp [tsV, Val.eqv]
+
 end Fc.PyLite.C20O
